@@ -117,12 +117,32 @@ def min(a, axis=None, keepdims=False, split_every=None, out=None):
     )
 
 
+def _empty_along_reduced_axes(x, axis, keepdims):
+    """An empty block contributes nothing to min/max: when ``x`` is empty along a
+    reduced axis, return an empty array that still concatenates with the
+    results of its neighbours (length 0 along those axes); ``None`` otherwise"""
+    axes = range(x.ndim) if axis is None else axis
+    if isinstance(axes, Integral):
+        axes = (axes,)
+    axes = {ax % x.ndim for ax in axes} if x.ndim else set()
+    if x.ndim and not builtins.any(x.shape[ax] == 0 for ax in axes):
+        # only empty along axes that are kept: NumPy reduces that fine
+        return None
+    if x.ndim <= 1 or not keepdims:
+        return array_safe([], x, ndmin=x.ndim, dtype=x.dtype)
+    shape = tuple(
+        (0 if n == 0 else 1) if i in axes else n for i, n in enumerate(x.shape)
+    )
+    return np.empty_like(x, shape=shape)
+
+
 def chunk_min(x, axis=None, keepdims=None):
     """Version of np.min which ignores size 0 arrays"""
     if x.size == 0:
-        return array_safe([], x, ndmin=x.ndim, dtype=x.dtype)
-    else:
-        return np.min(x, axis=axis, keepdims=keepdims)
+        empty = _empty_along_reduced_axes(x, axis, keepdims)
+        if empty is not None:
+            return empty
+    return np.min(x, axis=axis, keepdims=keepdims)
 
 
 @implements(np.max, np.amax)
@@ -144,9 +164,10 @@ def max(a, axis=None, keepdims=False, split_every=None, out=None):
 def chunk_max(x, axis=None, keepdims=None):
     """Version of np.max which ignores size 0 arrays"""
     if x.size == 0:
-        return array_safe([], x, ndmin=x.ndim, dtype=x.dtype)
-    else:
-        return np.max(x, axis=axis, keepdims=keepdims)
+        empty = _empty_along_reduced_axes(x, axis, keepdims)
+        if empty is not None:
+            return empty
+    return np.max(x, axis=axis, keepdims=keepdims)
 
 
 @derived_from(np)
@@ -286,16 +307,13 @@ def nanmin(a, axis=None, keepdims=False, split_every=None, out=None):
 
 
 def _nanmin_skip(x_chunk, axis, keepdims):
-    if x_chunk.size > 0:
-        with warnings.catch_warnings():
-            warnings.filterwarnings(
-                "ignore", "All-NaN slice encountered", RuntimeWarning
-            )
-            return np.nanmin(x_chunk, axis=axis, keepdims=keepdims)
-    else:
-        return asarray_safe(
-            np.array([], dtype=x_chunk.dtype), like=meta_from_array(x_chunk)
-        )
+    if x_chunk.size == 0:
+        empty = _empty_along_reduced_axes(x_chunk, axis, keepdims)
+        if empty is not None:
+            return empty
+    with warnings.catch_warnings():
+        warnings.filterwarnings("ignore", "All-NaN slice encountered", RuntimeWarning)
+        return np.nanmin(x_chunk, axis=axis, keepdims=keepdims)
 
 
 @derived_from(np)
@@ -319,16 +337,13 @@ def nanmax(a, axis=None, keepdims=False, split_every=None, out=None):
 
 
 def _nanmax_skip(x_chunk, axis, keepdims):
-    if x_chunk.size > 0:
-        with warnings.catch_warnings():
-            warnings.filterwarnings(
-                "ignore", "All-NaN slice encountered", RuntimeWarning
-            )
-            return np.nanmax(x_chunk, axis=axis, keepdims=keepdims)
-    else:
-        return asarray_safe(
-            np.array([], dtype=x_chunk.dtype), like=meta_from_array(x_chunk)
-        )
+    if x_chunk.size == 0:
+        empty = _empty_along_reduced_axes(x_chunk, axis, keepdims)
+        if empty is not None:
+            return empty
+    with warnings.catch_warnings():
+        warnings.filterwarnings("ignore", "All-NaN slice encountered", RuntimeWarning)
+        return np.nanmax(x_chunk, axis=axis, keepdims=keepdims)
 
 
 def mean_chunk(
